@@ -23,8 +23,11 @@ structure StepOK (idx : Nat) (side change : VMap) : Prop where
   nodupChange : NodupP change
   nonemptySide : ∀ e ∈ side, e.path ≠ []
   nonemptyChange : ∀ c ∈ change, c.path ≠ []
-  idxSide : ∀ e ∈ side, e.index < idx
-  idxChange : ∀ c ∈ change, c.index = idx
+  /-- a change value never carries the index of the stored entry it replaces (`store` skips an
+      entry whose index did not change) -/
+  idxFresh : ∀ c ∈ change, ∀ e, VMap.get side c.path = some e → c.index ≠ e.index
+  /-- the transaction index differs from the index of every stored entry (for the cascade) -/
+  idxMark : ∀ e ∈ side, idx ≠ e.index
   /-- (c) nothing in the change lies strictly below a deleted path of the same change -/
   noSelf : NoSelfCascade change
   /-- (d) a deleted path is a textual prefix only of paths it contains at an element boundary -/
